@@ -96,6 +96,7 @@ type workerOut struct {
 	WallS      float64        `json:"wall_s"`
 	Traces     map[string]string `json:"traces,omitempty"`
 	HarnessErr string         `json:"harness_err,omitempty"`
+	Extra      map[string]interface{} `json:"-"`
 }
 
 func caseSeed(base uint64, worker, i int) uint64 {
@@ -573,6 +574,34 @@ func driverCheck(prop, tier string) int {
 		fmt.Printf("  class=%s\n  %s\n", v.Viol.Class, strings.ReplaceAll(v.Viol.Msg, "\n", "\n  "))
 		exit = 1
 	}
+	// race side mode (C09, C13): free-running goroutines, binary built with -race
+	raceInfo := map[string]interface{}{}
+	if prop == "C09" || prop == "C13" {
+		rsecs := 12
+		if tier == "thorough" {
+			rsecs = 240
+		}
+		if v := envInt("VERIF_RACE_SECONDS", 0); v > 0 {
+			rsecs = v
+		}
+		runs, races, report, rerr := runRaceMode(prop, seed, rsecs)
+		raceInfo = map[string]interface{}{"seconds": rsecs, "runs": runs, "data_races_reported": races, "note": "free-running goroutines on the real os file implementation, hooks disabled, binary built with -race; not schedule-replayable (replay file = seed + race report)"}
+		switch {
+		case rerr != nil:
+			fmt.Printf("HARNESS-ERROR race side mode: %v\n", rerr)
+			trouble = true
+		case races > 0 || report != "":
+			class := "data-race"
+			if races == 0 {
+				class = "race-mode-error"
+			}
+			rc := &Case{Prop: prop, Seed: seed, Tier: tier, Viol: &Violation{Prop: prop, Class: class, Msg: firstLines(report, 60)}, Notes: []string{"race side mode; re-run: VERIF_RACE=" + fmt.Sprintf("%s:%d:%d", prop, seed, rsecs) + " bin/simcheck-race"}}
+			path := writeReplay(rc)
+			nviol++
+			exit = 1
+			fmt.Printf("VIOLATION property=%s replay=%s\n  class=%s\n  %s\n", prop, path, class, strings.ReplaceAll(firstLines(report, 25), "\n", "\n  "))
+		}
+	}
 	known := loadKnown()
 	var knownPrinted []string
 	for _, f := range known.Known {
@@ -583,6 +612,10 @@ func driverCheck(prop, tier string) int {
 		}
 	}
 
+	if len(raceInfo) > 0 {
+		agg.Extra = map[string]interface{}{"race_side_mode": raceInfo}
+	}
+	wall = time.Since(start).Seconds()
 	writeEvidence(p, tier, seed, agg, len(sigs), len(scheds), wall, nviol, knownPrinted, nw)
 	fmt.Printf("simcheck: %s %s: runs=%d evaluations=%d distinct_nontrivial=%d interleavings=%d wall=%.1fs violations=%d\n",
 		prop, tier, agg.Runs, agg.Evals, len(sigs), len(scheds), wall, nviol)
@@ -725,6 +758,9 @@ func writeEvidence(p *PropDef, tier string, seed uint64, agg *workerOut, distinc
 		"toolchain":           runtime.Version(),
 		"known_findings":      known,
 	}
+	for k, v := range agg.Extra {
+		cov[k] = v
+	}
 	ev := map[string]interface{}{
 		"property_id": p.ID,
 		"tier":        tier,
@@ -750,4 +786,35 @@ var defaultAssume = []string{
 	"MAP_SHARED mappings are coherent with pwrite",
 	"yield points: txfile hooks (build tag verif) plus every simulated disk write/sync; interleavings inside code sections without a yield point are not explored",
 	"seeded sampling: a clean batch is evidence, not proof",
+}
+
+// runRaceMode executes the -race binary in side mode and parses its output.
+func runRaceMode(prop string, seed uint64, secs int) (runs, races int, report string, err error) {
+	bin := filepath.Join(verifRoot, "bin", "simcheck-race")
+	if _, serr := os.Stat(bin); serr != nil {
+		return 0, 0, "", fmt.Errorf("race binary missing: %v", serr)
+	}
+	cmd := exec.Command(bin)
+	cmd.Env = append(os.Environ(), fmt.Sprintf("VERIF_RACE=%s:%d:%d", prop, seed&0xffffffff, secs), "GORACE=halt_on_error=0")
+	timer := time.AfterFunc(time.Duration(secs)*time.Second*3+2*time.Minute, func() { cmd.Process.Kill() })
+	out, _ := cmd.CombinedOutput()
+	timer.Stop()
+	text := string(out)
+	for _, l := range strings.Split(text, "\n") {
+		if strings.HasPrefix(l, "RACE-RUNS ") {
+			fmt.Sscanf(l, "RACE-RUNS %d", &runs)
+		}
+		if strings.HasPrefix(l, "RACE-ERROR ") {
+			report += l + "\n"
+		}
+	}
+	races = strings.Count(text, "WARNING: DATA RACE")
+	if races > 0 {
+		i := strings.Index(text, "WARNING: DATA RACE")
+		report += text[i:]
+	}
+	if runs == 0 && races == 0 && report == "" {
+		return 0, 0, "", fmt.Errorf("no output from race binary: %s", tail(text, 10))
+	}
+	return runs, races, report, nil
 }
